@@ -12,6 +12,7 @@ from __future__ import annotations
 
 import json
 
+from .. import batch_battery as bb
 from .. import batch_corr as bc
 from .. import batch_gen as bg
 
@@ -23,6 +24,8 @@ THEOREMS = [
     "C10.no_tmp",
     "C10.values",
     "C10.values_partial",
+    "C10.generated_not_copied",
+    "C10.generated_value",
     "C10.overwritten_column_counterexample",
     "C10.order_perm",
     "C10.order_respects",
@@ -67,6 +70,8 @@ RULE = (
 )
 ASSUMPTIONS = [
     "SQLite only (pysqlite legacy transaction control); PRAGMA foreign_keys off (SQLite default)",
+    "generated columns (GENERATED ALWAYS AS ... STORED/VIRTUAL) are generated without keys / CHECKs / NOT NULL on them; their expression is read "
+    "from the stored CREATE TABLE text (SQLAlchemy's reflection regex mis-reads it in some layouts); their values are compared as 'recomputed'",
     "not generated: a batch that drops every original column (SQLAlchemy raises KeyError compiling the empty INSERT..SELECT), partial_reordering, table_args/table_kwargs, copy_from tables whose Boolean/Enum *type object* generates the CHECK "
     "(type-bound constraints; copy_from tables carry the same CHECK as an explicit named CheckConstraint), functional indexes, schemas, "
     "identifiers that need quoting (C14's subject)",
@@ -84,11 +89,14 @@ def shape_key(case):
 def gen_case(rng, big=False):
     t = bg.gen_table(rng, big=big)
     ops = bg.gen_ops(rng, t)
-    return bc.new_case(t, ops, rng.choice(["always", "always", "auto"]), rng.random() < 0.3)
+    pr = bg.gen_partial_reordering(rng, t, ops) if rng.random() < 0.12 else None
+    return bc.new_case(t, ops, rng.choice(["always", "always", "auto"]), rng.random() < 0.3,
+                       tddl=rng.choice([None, None, True]), pr=pr)
 
 
 def input_of(case):
-    return {"table": case["table"], "ops": case["ops"], "recreate": case["recreate"], "copy_from": case["copy_from"]}
+    return {"table": case["table"], "ops": case["ops"], "recreate": case["recreate"], "copy_from": case["copy_from"],
+            "tddl": case.get("tddl"), "pr": case.get("pr")}
 
 
 def kind_of(why):
@@ -173,10 +181,47 @@ def run_witness(ctx, w):
     return case, r
 
 
+def run_battery_item(ctx, name):
+    """oracle-only: the real batch on a hand-built copy_from table, judged by check10 (+ sqlite_master text checks)"""
+    r = bb.run_item(name)
+    case = bb.case_of(name)
+    why = bb.python_checks(name, r)
+    if applicable(r):
+        s = ctx.drv.ask1(bc.spec10_op(case, r))
+        if s.get("holds") is not True:
+            why = (s.get("why") or [json.dumps(s)]) + why
+    return case, r, why
+
+
+def battery(ctx):
+    for name in bb.ITEMS:
+        case, r, why = run_battery_item(ctx, name)
+        ctx.evaluation()
+        ctx.hist("battery", "%s: %s" % (name, bc.canon_outcome(r["outcome"]) or "ok"))
+        if applicable(r):
+            ctx.nontrivial(("battery", name))
+        if why:
+            ctx.fail({"battery": name, "ops": case["ops"], "recreate": case["recreate"], "copy_from": case["copy_from"]},
+                     "%s: %s" % (kind_of(why), "; ".join(why)[:600]), impl=bc.brief(r), tags=sorted({w.split(":")[0] for w in why}))
+
+
 def run(ctx, n_cases=None, rng_name="main"):
     rng = ctx.rng(rng_name)
+    if rng_name == "main":
+        battery(ctx)
     n = n_cases or (8000 if ctx.thorough else 500)
     pending = []
+    # fixed battery: every add_column position branch, with and without partial_reordering, reflected and copy_from
+    for j in range(3):
+        t = bg.gen_table(rng)
+        for ops in bg.ordering_battery(t):
+            for pr in (None, [[t["cols"][-1]["name"], t["cols"][0]["name"]]]):
+                one(ctx, bc.new_case(t, ops, "always", j == 1, pr=pr), pending)
+        # recreate='auto': which single add_column forces the move-and-copy (requires_recreate_in_batch)
+        for d in ("0", "'x'", None):
+            col = {"name": "n1", "ty": "INTEGER" if d != "'x'" else "VARCHAR(20)", "aff": "Integer" if d != "'x'" else "String",
+                   "nullable": True, "default": d, "dval": bg.default_value(d), "pk": False}
+            one(ctx, bc.new_case(t, [{"op": "add_column", "col": col, "before": None, "after": None}], "auto", j == 1), pending)
     for i in range(n):
         one(ctx, gen_case(rng, big=ctx.thorough and i % 4 == 0), pending)
         if len(pending) >= 250:
@@ -199,6 +244,13 @@ def _values_of(r, col):
 
 
 def check_witness(ctx, finding):
+    if finding["id"] == "C10-F3":
+        r = bb.run_item("copy_from_index_true")
+        if r["outcome"] != "ok":
+            return None
+        had = [i["name"] for i in r["before"]["orig"]["indexes"]]
+        has = [i["name"] for i in r["fresh"]["orig"]["indexes"]]
+        return "index ix_t_x of the copy_from table is not re-created: %s -> %s" % (had, has) if "ix_t_x" in had and "ix_t_x" not in has else None
     w = WITNESSES.get(finding["id"])
     if w is None:
         return None
@@ -216,6 +268,12 @@ def check_witness(ctx, finding):
 
 def classify(failure):
     """narrow structural signatures of the known findings"""
+    if failure["input"].get("battery"):
+        # C10-F3: the copy_from table has Column(index=True); the only complaint is that very index missing
+        reasons = [w.strip() for w in failure["what"].split(":", 1)[1].split(";")]
+        if failure["input"]["battery"] == "copy_from_index_true" and len(reasons) == 1 and "index ix_t_x missing" in reasons[0]:
+            return "C10-F3"
+        return None
     ops = failure["input"]["ops"]
     what = failure["what"]
     table = failure["input"]["table"]
@@ -242,7 +300,11 @@ def classify(failure):
 
 def replay(ctx, case):
     inp = case["input"]
-    c = bc.new_case(inp["table"], inp["ops"], inp.get("recreate", "always"), inp.get("copy_from", False))
+    if inp.get("battery"):
+        c, r, why = run_battery_item(ctx, inp["battery"])
+        return {"impl": bc.brief(r), "sql_before": r["sql_before"], "sql_after": r["sql_after"], "spec": {"holds": not why, "why": why}}
+    c = bc.new_case(inp["table"], inp["ops"], inp.get("recreate", "always"), inp.get("copy_from", False),
+                    tddl=inp.get("tddl"), pr=inp.get("pr"))
     r = bc.run_impl(c)
     m = ctx.drv.ask1(bc.model_op(c, r))
     out = {"impl": bc.brief(r), "model": {"stmts": m.get("stmts"), "outcome": m.get("outcome")}, "differences": bc.compare(c, r, m)}
